@@ -93,9 +93,18 @@ std::ostream& location_t::print(std::ostream& os) const
 
 std::ostream& edge_t::print(std::ostream& os) const
 {
+    // an end of the edge is either a location or a branchpoint
     os << "EDGE (";
-    src->print(os) << ' ';
-    dst->print(os) << ")\n";
+    if (src != nullptr)
+        src->print(os);
+    else if (srcb != nullptr)
+        os << "BRANCHPOINT (" << srcb->uid.get_name() << ')';
+    os << ' ';
+    if (dst != nullptr)
+        dst->print(os);
+    else if (dstb != nullptr)
+        os << "BRANCHPOINT (" << dstb->uid.get_name() << ')';
+    os << ")\n";
     os << "\t";
     guard.print(os) << ", ";
     sync.print(os) << ", ";
